@@ -14,18 +14,37 @@ use watchexec_supervisor::command::{Command, Program, Shell, SpawnOptions};
 
 use crate::split;
 
-/// A string of exactly `len` (<= 2) symbolic ASCII bytes (never NUL).
-fn sym_ascii(len: usize) -> String {
+/// Two symbolic ASCII bytes (never NUL): the backing store of one test string.
+fn sym2() -> [u8; 2] {
+    let b: [u8; 2] = kani::any();
+    kani::assume(b[0] >= 1 && b[0] < 0x80 && b[1] >= 1 && b[1] < 0x80);
+    b
+}
+/// The string made of the first `len` (<= 2) bytes of `b`.
+fn mk(b: &[u8; 2], len: usize) -> String {
     let mut v = Vec::with_capacity(2);
     let mut i = 0;
     while i < len {
-        let b: u8 = kani::any();
-        kani::assume(b >= 1 && b < 0x80);
-        v.push(b);
+        v.push(b[i]);
         i += 1;
     }
     // SAFETY: all bytes are ASCII
     unsafe { String::from_utf8_unchecked(v) }
+}
+/// `a` equals the first `len` bytes of `b`.
+fn is(a: &OsStr, b: &[u8; 2], len: usize) -> bool {
+    let a = a.as_bytes();
+    if a.len() != len {
+        return false;
+    }
+    let mut i = 0;
+    while i < len {
+        if a[i] != b[i] {
+            return false;
+        }
+        i += 1;
+    }
+    true
 }
 
 fn bytes_eq(a: &OsStr, b: &[u8]) -> bool {
@@ -57,39 +76,40 @@ fn check_wrappers(sp: &process_wrap::tokio::TokioCommandWrap, o: SpawnOptions) {
 }
 
 fn exec_scenario(lens: [usize; 3], nargs: usize, unicode_first: bool) {
-    let mut a = [sym_ascii(lens[0]), sym_ascii(lens[1]), sym_ascii(lens[2])];
-    if unicode_first {
-        a[0] = String::from("é 'x'"); // multi-byte + space + quotes, concrete
-    }
+    const UNI: &str = "é 'x'"; // multi-byte + space + quotes, concrete
+    let b = [sym2(), sym2(), sym2()];
+    let pb = sym2();
     let mut args = Vec::with_capacity(3);
     let mut i = 0;
     while i < nargs {
-        args.push(a[i].clone());
+        args.push(if unicode_first && i == 0 { String::from(UNI) } else { mk(&b[i], lens[i]) });
         i += 1;
     }
-    let prog = sym_ascii(1);
     let options = any_options();
-    let cmd = Command { program: Program::Exec { prog: PathBuf::from(prog.clone()), args }, options };
+    let cmd = Command { program: Program::Exec { prog: PathBuf::from(mk(&pb, 1)), args }, options };
     let sp = cmd.to_spawnable();
     let c = sp.command();
     kani::cover!(nargs == 3 && lens[0] == 0, "three args, first empty");
-    kani::cover!(nargs >= 1 && lens[0] == 2 && a[0].as_bytes()[0] == b' ' && a[0].as_bytes()[1] == b'*', "argument ' *'");
-    assert!(bytes_eq(&c.verif_program, prog.as_bytes()), "C18: program altered");
+    kani::cover!(nargs >= 1 && lens[0] == 2 && b[0][0] == b' ' && b[0][1] == b'*', "argument ' *'");
+    assert!(is(&c.verif_program, &pb, 1), "C18: program altered");
     assert!(c.verif_args.len() == nargs, "C18: argument count changed (split or dropped)");
     let mut i = 0;
     while i < nargs {
-        assert!(bytes_eq(&c.verif_args[i], a[i].as_bytes()), "C18: argument bytes altered");
+        if unicode_first && i == 0 {
+            assert!(bytes_eq(&c.verif_args[0], UNI.as_bytes()), "C18: argument bytes altered");
+        } else {
+            assert!(is(&c.verif_args[i], &b[i], lens[i]), "C18: argument bytes altered");
+        }
         i += 1;
     }
     check_wrappers(&sp, options);
     std::mem::forget(sp);
     std::mem::forget(cmd);
-    std::mem::forget(a);
 }
 
 /// Program::Exec with 0..=3 arguments; lengths (0,1,2) resp. (2,0,1); bytes symbolic.
 #[kani::proof]
-#[kani::unwind(8)]
+#[kani::unwind(5)]
 pub fn c18_exec_argv_exact() {
     split!(4, |nargs| {
         split!(2, |pat| {
@@ -100,7 +120,7 @@ pub fn c18_exec_argv_exact() {
 
 /// Thorough: all 27 length combinations x 0..=3 arguments.
 #[kani::proof]
-#[kani::unwind(8)]
+#[kani::unwind(5)]
 pub fn c18_exec_argv_exact_full() {
     split!(4, |nargs| {
         split!(3, |l0| {
@@ -123,32 +143,32 @@ pub fn c18_exec_argv_unicode() {
 }
 
 fn shell_scenario(nopts: usize, nargs: usize, with_progopt: bool, len: usize) {
-    let o = [sym_ascii(len), sym_ascii(2 - len)];
-    let a = [sym_ascii(2 - len), sym_ascii(len)];
-    let command = sym_ascii(2);
-    let shell_prog = sym_ascii(1);
-    let progopt: Option<String> = if with_progopt { Some(sym_ascii(2)) } else { None };
+    let ob = [sym2(), sym2()];
+    let ab = [sym2(), sym2()];
+    let (cb, sb, pb) = (sym2(), sym2(), sym2());
+    let olen = [len, 2 - len];
+    let alen = [2 - len, len];
     let mut options_v = Vec::with_capacity(2);
     let mut args_v = Vec::with_capacity(2);
     let mut i = 0;
     while i < nopts {
-        options_v.push(o[i].clone());
+        options_v.push(mk(&ob[i], olen[i]));
         i += 1;
     }
     let mut i = 0;
     while i < nargs {
-        args_v.push(a[i].clone());
+        args_v.push(mk(&ab[i], alen[i]));
         i += 1;
     }
     let options = any_options();
     let cmd = Command {
         program: Program::Shell {
             shell: Shell {
-                prog: PathBuf::from(shell_prog.clone()),
+                prog: PathBuf::from(mk(&sb, 1)),
                 options: options_v,
-                program_option: progopt.clone().map(|s| Cow::Owned(OsString::from_vec(s.into_bytes()))),
+                program_option: if with_progopt { Some(Cow::Owned(OsString::from_vec(mk(&pb, 2).into_bytes()))) } else { None },
             },
-            command: command.clone(),
+            command: mk(&cb, 2),
             args: args_v,
         },
         options,
@@ -157,64 +177,67 @@ fn shell_scenario(nopts: usize, nargs: usize, with_progopt: bool, len: usize) {
     let c = sp.command();
     kani::cover!(nopts == 2 && nargs == 2 && with_progopt, "full shell form");
     kani::cover!(!with_progopt, "no program option");
-    assert!(bytes_eq(&c.verif_program, shell_prog.as_bytes()), "C18: shell program altered");
+    assert!(is(&c.verif_program, &sb, 1), "C18: shell program altered");
     let want = nopts + with_progopt as usize + 1 + nargs;
     assert!(c.verif_args.len() == want, "C18: shell argv length wrong");
     let mut k = 0;
     let mut i = 0;
     while i < nopts {
-        assert!(bytes_eq(&c.verif_args[k], o[i].as_bytes()), "C18: shell option altered or misplaced");
+        assert!(is(&c.verif_args[k], &ob[i], olen[i]), "C18: shell option altered or misplaced");
         k += 1;
         i += 1;
     }
-    if let Some(p) = &progopt {
-        assert!(bytes_eq(&c.verif_args[k], p.as_bytes()), "C18: program option altered or misplaced");
+    if with_progopt {
+        assert!(is(&c.verif_args[k], &pb, 2), "C18: program option altered or misplaced");
         k += 1;
     }
-    assert!(bytes_eq(&c.verif_args[k], command.as_bytes()), "C18: command string altered or misplaced");
+    assert!(is(&c.verif_args[k], &cb, 2), "C18: command string altered or misplaced");
     k += 1;
     let mut i = 0;
     while i < nargs {
-        assert!(bytes_eq(&c.verif_args[k], a[i].as_bytes()), "C18: extra argument altered or misplaced");
+        assert!(is(&c.verif_args[k], &ab[i], alen[i]), "C18: extra argument altered or misplaced");
         k += 1;
         i += 1;
     }
     check_wrappers(&sp, options);
     std::mem::forget(sp);
     std::mem::forget(cmd);
-    std::mem::forget((o, a));
 }
 
-/// Program::Shell: shell, options.., program option?, command, args..
-#[kani::proof]
-#[kani::unwind(8)]
-pub fn c18_shell_argv_with_progopt() {
-    split!(3, |nopts| {
-        split!(3, |nargs| {
-            shell_scenario(nopts, nargs, true, 1);
-        })
-    });
+/// Program::Shell: shell, options.., program option?, command, args.. One harness per
+/// (number of shell options, program option present); the number of extra arguments is
+/// path-split inside, all bytes and the spawn options are symbolic.
+macro_rules! shell_harness {
+    ($name:ident, $nopts:expr, $progopt:expr) => {
+        #[kani::proof]
+        #[kani::unwind(5)]
+        pub fn $name() {
+            split!(3, |nargs| {
+                shell_scenario($nopts, nargs, $progopt, 1);
+            });
+        }
+    };
 }
-#[kani::proof]
-#[kani::unwind(8)]
-pub fn c18_shell_argv_no_progopt() {
-    split!(3, |nopts| {
-        split!(3, |nargs| {
-            shell_scenario(nopts, nargs, false, 1);
-        })
-    });
-}
-/// Thorough: also vary the string lengths.
-#[kani::proof]
-#[kani::unwind(8)]
-pub fn c18_shell_argv_full() {
-    split!(3, |nopts| {
-        split!(3, |nargs| {
+shell_harness!(c18_shell_0opts_progopt, 0, true);
+shell_harness!(c18_shell_1opts_progopt, 1, true);
+shell_harness!(c18_shell_2opts_progopt, 2, true);
+shell_harness!(c18_shell_0opts_noprogopt, 0, false);
+shell_harness!(c18_shell_1opts_noprogopt, 1, false);
+shell_harness!(c18_shell_2opts_noprogopt, 2, false);
+
+/// Thorough: other string-length patterns.
+macro_rules! shell_harness_len {
+    ($name:ident, $len:expr) => {
+        #[kani::proof]
+        #[kani::unwind(5)]
+        pub fn $name() {
             split!(2, |p| {
-                split!(3, |len| {
-                    shell_scenario(nopts, nargs, p == 1, len);
+                split!(2, |n| {
+                    shell_scenario(2 * n, 2 - n, p == 1, $len);
                 })
-            })
-        })
-    });
+            });
+        }
+    };
 }
+shell_harness_len!(c18_shell_len0, 0);
+shell_harness_len!(c18_shell_len2, 2);
